@@ -107,4 +107,11 @@ def handleFloat (j : Json) : R Json := do
   let cells ← getList (fun e => do pure (← getStr e "cell", ← getOpt asNat e "bits")) j "cells"
   return jObj [("results", jList (fun (c, b) => jOpt jBool (Float.certify c b)) cells)]
 
+/-- the model of `time.Date` alone (validation against the time package over exported zone tables) -/
+def handleZone (j : Json) : R Json := do
+  let t ← tableOf (← field j "table")
+  let days ← getList asInt j "days"
+  return jObj [("instants", jList (fun d => jOpt jInt (t.instant d)) days),
+               ("settled", jList (fun d => jBool (decide (Zone.Settled t.zone d))) days)]
+
 end Gtfs.DStatic
